@@ -376,7 +376,8 @@ TIES = {
     'C08': [('SrcNw.v', ['PyPrelude', 'PgmState', 'PureState', 'SrcNw', 'EquivNw'], 'EquivNw'),
             ('SrcWr.v', ['PyPrelude', 'PgmState', 'PureState', 'LineTok', 'PgmSrc', 'PgmEquiv', 'SrcWr', 'EquivWr'], 'EquivWr')],
     'C05': ('SrcTc.v', ['PyPrelude', 'PgmState', 'PureState', 'SrcTc', 'EquivTc'], 'EquivTc'),
-    'C06': ('SrcTc.v', ['PyPrelude', 'PgmState', 'PureState', 'SrcTc', 'EquivTc'], 'EquivTc'),
+    'C06': [('SrcTc.v', ['PyPrelude', 'PgmState', 'PureState', 'SrcTc', 'EquivTc'], 'EquivTc'),
+            ('SrcFc.v', ['PyPrelude', 'PgmState', 'PureState', 'LineTok', 'PgmSrc', 'PgmEquiv', 'FcState', 'SrcFc', 'EquivFc'], 'EquivFc')],
     'C07': ('SrcTr.v', ['PyPrelude', 'PgmState', 'TrState', 'SrcTr', 'EquivTr'], 'EquivTr'),
 }
 TIE_PROPS = set(TIES)
@@ -394,7 +395,7 @@ def source_tie_group(rep: Report, prop: str, group: str, tie_files: list, stmt_f
     src = REPO / 'src' / 'femto'
     gen_name = 'PgmSrc.v' if group == 'pgm' else group
     res = {'ok': False, 'stage': 'translate', 'log': '', 'theorems': [], 'axioms': {}, 'source': str(src), 'generated': gen_name}
-    rc, out = sh([sys.executable, '-B', str(VERIF / 'harness' / 'py2coq.py'), str(src), str(d)] + (['pgm', group] if group == 'SrcWr.v' else [group]), 120)
+    rc, out = sh([sys.executable, '-B', str(VERIF / 'harness' / 'py2coq.py'), str(src), str(d)] + (['pgm', group] if group in ('SrcWr.v', 'SrcFc.v') else [group]), 120)
     if rc != 0:
         res['log'] = out[-1500:]
         rep.violation('proof/source-tie/translator',
